@@ -622,6 +622,39 @@ def stepR (toks : List String) : Option (List String) := do
       some (showExchs r.1 ++ showResE multi r.2)
   else none
 
+/-- `slice.len() as u32` / `self.len() as u32` of every provided `Buf`
+implementation (src/io/traits.rs:518-706): the length a buffer of `len` bytes
+reports to the futures. Equal to `len` below 4 GiB. -/
+def partsLen (len : Nat) : Nat := len % U32
+
+/-- `composite whuge`: a `&'static [u8]` of `2^32 + extra` bytes (followed, for
+the vectored futures, by a second buffer of `tail` bytes). The future only sees
+`partsLen` of the first buffer. The last line compares what the caller handed
+in with what the kernel was given. -/
+def stepWHuge (toks : List String) : Option (List String) := do
+  let fut ← findKv "fut" toks
+  let k ← (findKv "extra" toks).bind parseU64
+  let t ← (findKv "tail" toks).bind parseU64
+  let ks ← (findKv "ks" toks).bind (parseList parseU64)
+  if k > 4096 ∨ t > 4096 then none else
+  let single := fut == "write_all" || fut == "send_all"
+  if single && t ≠ 0 then none else
+  let first : WBuf := ⟨partsLen (U32 + k), none⟩
+  let okText := fun (_ : Unit) => ""
+  let r : Option (List Exch × Res Unit) :=
+    if fut == "write_all" then some ((writeAll first NO_OFFSET ks).1, (writeAll first NO_OFFSET ks).2.map fun _ => ())
+    else if fut == "send_all" then some ((sendAll first 0 false ks).1, (sendAll first 0 false ks).2.map fun _ => ())
+    else if fut == "write_all_vectored" then
+      some ((writeAllV ⟨[first, ⟨t, none⟩], none⟩ NO_OFFSET ks).1,
+            (writeAllV ⟨[first, ⟨t, none⟩], none⟩ NO_OFFSET ks).2.map fun _ => ())
+    else if fut == "send_all_vectored" then
+      some ((sendAllV ⟨[first, ⟨t, none⟩], none⟩ 0 false ks).1,
+            (sendAllV ⟨[first, ⟨t, none⟩], none⟩ 0 false ks).2.map fun _ => ())
+    else none
+  let r ← r
+  let handed := (r.1.map (·.res)).foldl (· + ·) 0
+  some (showExchs r.1 ++ showRes okText r.2 ++ [s!"input={U32 + k + t} handed={handed}"])
+
 /-- One op: `composite w …` (a writing future) or `composite r …` (a reading
 future); output = the requests with their results, then the final result. -/
 def stepLine (toks : List String) : List String :=
@@ -629,6 +662,7 @@ def stepLine (toks : List String) : List String :=
   | ["composite", "begin", _] => []
   | "composite" :: "w" :: rest => (stepW rest).getD ["bad-op"]
   | "composite" :: "r" :: rest => (stepR rest).getD ["bad-op"]
+  | "composite" :: "whuge" :: rest => (stepWHuge rest).getD ["bad-op"]
   | _ => ["bad-op"]
 
 end A10.Composite
